@@ -20,6 +20,19 @@ def generate(api):
     api.grab(t, r"\(i as u64\) \^ 0x8000_0000_0000_0000u64", rel, "encode_i64 sign flip")
     api.grab(t, r"if \(bits & \(1u64 << 63\)\) != 0 \{\s*!bits\s*\} else \{\s*bits \^ \(1u64 << 63\)", rel, "encode_f64 mapping")
     api.grab(t, r"t >= \(i64::MIN as f64\) && t <= \(i64::MAX as f64\)", rel, "integral float range test")
+    # SIMD label search of the SuRF probe: lane count and the width the lane mask is narrowed to
+    rel = "src/engine/core/filter/zone_surf_filter.rs"
+    t = api.src(rel)
+    m1 = api.grab(t, r"fn simd_first_ge\(slice: &\[u8\], tb: u8\) -> Option<usize> \{(.*?)\n    #\[inline\]\n    fn simd_last_le", rel, "simd_first_ge body", re.S)
+    m2 = api.grab(t, r"fn simd_last_le\(slice: &\[u8\], tb: u8\) -> Option<usize> \{(.*?)\n    fn child_range", rel, "simd_last_le body", re.S)
+    out.append(f"-- {rel}")
+    for name, body in (("Ge", m1.group(1)), ("Le", m2.group(1))):
+        lanes = api.grab(body, r"const LANES: usize = (\d+);", rel, f"simd {name} LANES")
+        mask = api.grab(body, r"let bits = m\.to_bitmask\(\) as u(\d+);", rel, f"simd {name} mask width")
+        out.append(f"def surf{name}Lanes : Nat := {int(lanes.group(1))}")
+        out.append(f"def surf{name}MaskBits : Nat := {int(mask.group(1))}")
+    api.grab(m1.group(1), r"let m = v\.simd_ge\(Simd::splat\(tb\)\);.*?bits\.trailing_zeros\(\) as usize;\s*return Some\(i \+ j\);", rel, "simd_first_ge chunk step", re.S)
+    api.grab(m2.group(1), r"let m = v\.simd_le\(Simd::splat\(tb\)\);.*?let j = \(LANES - 1\) - \(bits\.leading_zeros\(\) as usize\);\s*return Some\(start \+ j\);", rel, "simd_last_le chunk step", re.S)
     rel = "src/shared/datetime/time_bucketing.rs"
     t = api.src(rel)
     m = api.grab(t, r"TimeGranularity::Hour => \(ts / ([0-9_]+)\) \* ([0-9_]+),", rel, "naive hour bucket")
